@@ -37,6 +37,7 @@ CONSTANTS
   Fallback = %(fb)s
   MaxSteps = %(steps)d
   KeepHist = %(kh)s
+  InitFailureTakesStreamDown = TRUE
 %(rest)s
 CHECK_DEADLOCK FALSE
 """
